@@ -384,6 +384,72 @@ class OtherValuesRoundTrip(Contract):
         return None
 
 
+class LengthCheckAfterReopen(Contract):
+    """Bounded stand-in: "more entries than the geometry has" is refused for every object class, also
+    on an object that was just loaded from a file and whose geometry has not been touched yet (the
+    element count must not depend on a cache that is filled on demand)."""
+    target = "geoh5py/data/numeric_data.py::NumericData.format_length"
+    variant = "length-check-after-reopen"
+    symbolic = False
+    has_native = True
+    props = ("C08", "C07")
+    bounded_scope = "Points, Curve, Surface, Grid2D, BlockModel, Octree: one entry too many / exact / one too few, for vertex or cell data, in the creating session and straight after a re-open (exhaustive over the listed classes)"
+
+    KINDS = ("points", "curve", "surface", "grid2d", "blockmodel", "octree")
+
+    def native_cases(self, tier, rng):
+        for kind in self.KINDS:
+            for reopened in (False, True):
+                for delta in (1, 0, -1):
+                    yield {"kind": kind, "reopened": reopened, "delta": delta}
+
+    @staticmethod
+    def _make(ws, kind):
+        from geoh5py.objects import BlockModel, Curve, Grid2D, Octree, Points, Surface
+
+        v = np.c_[np.arange(5.0), np.arange(5.0) ** 2, np.zeros(5)]
+        if kind == "points":
+            return Points.create(ws, name="o", vertices=v), "VERTEX", 5
+        if kind == "curve":
+            return Curve.create(ws, name="o", vertices=v), "CELL", 4
+        if kind == "surface":
+            return Surface.create(ws, name="o", vertices=v, cells=np.array([[0, 1, 2], [1, 2, 3], [2, 3, 4]], dtype="uint32")), "CELL", 3
+        if kind == "grid2d":
+            return Grid2D.create(ws, name="o", u_count=3, v_count=2, u_cell_size=1.0, v_cell_size=1.0), "CELL", 6
+        if kind == "blockmodel":
+            return BlockModel.create(ws, name="o", u_cell_delimiters=np.arange(3.0), v_cell_delimiters=np.arange(3.0), z_cell_delimiters=np.arange(2.0)), "CELL", 4
+        return Octree.create(ws, name="o", u_count=2, v_count=2, w_count=2, u_cell_size=1.0, v_cell_size=1.0, w_cell_size=1.0), "CELL", 8
+
+    def native_check(self, case):
+        from geoh5py.workspace import Workspace
+
+        d = tempfile.mkdtemp()
+        path = os.path.join(d, "n.geoh5")
+        try:
+            ws = Workspace.create(path)
+            obj, assoc, n = self._make(ws, case["kind"])
+            n = int(obj.n_vertices if assoc == "VERTEX" else obj.n_cells)  # as reported in the creating session
+            if case["reopened"]:
+                ws.close()
+                ws = Workspace(path, mode="r+")
+                obj = ws.get_entity("o")[0]  # nothing of its geometry is read before the data are added
+            m = n + case["delta"]
+            try:
+                dat = obj.add_data({"d": {"values": np.arange(m, dtype=float), "association": assoc}})
+            except ValueError:
+                ws.close()
+                return None if case["delta"] > 0 else f"{m} values refused for {n} elements ({case})"
+            got = None if dat.values is None else len(dat.values)
+            ws.close()
+            if case["delta"] > 0:
+                return f"{m} values accepted for an object with {n} {assoc.lower()} elements (stored {got}) ({case})"
+            if got != n:
+                return f"data hold {got} entries for {n} elements ({case})"
+        finally:
+            shutil.rmtree(d, ignore_errors=True)
+        return None
+
+
 class PaddingRoundTrip(Contract):
     """Bounded stand-in: vertex data shorter than the geometry are padded with the class's no-data
     marker (NaN -> stored float code; the integer code for integer data) whatever the NumPy dtype
@@ -442,4 +508,4 @@ class PaddingRoundTrip(Contract):
         return None
 
 
-CONTRACTS = [IntegerFormatType, BooleanFormatType, FormatValuesLength, StorageRoundTrip, OtherValuesRoundTrip, PaddingRoundTrip]
+CONTRACTS = [IntegerFormatType, BooleanFormatType, FormatValuesLength, StorageRoundTrip, OtherValuesRoundTrip, LengthCheckAfterReopen, PaddingRoundTrip]
